@@ -115,6 +115,15 @@ def run(ctx, report):
                 r_al.finding(f"{f.short}:{e.target}", f"{f.short} mutates {e.target!r} ({e.detail}), which aliases the shared registry data", e.where)
             elif e.kind == "param-mutation" and e.target.split(".")[0] in ptaint.get(id(f), ()):
                 r_al.finding(f"{f.short}:{e.target}", f"{f.short} mutates its parameter {e.target!r} {e.detail}, which callers bind to registry data", e.where)
+    # writes into objects created once at class / module level, seen by abstract evaluation of every registered algorithm
+    from ..state_eval import explore_algorithms
+    r_ob = report.rule("R14-objects", floor=55, what="no registered algorithm writes into an object created at class / module level (shared by all threads)")
+    per_reg, shared_writes = explore_algorithms(ctx, shared)
+    for r, _ in per_reg:
+        r_ob.instance({"key": r.key} if len(r_ob.samples) < 3 else None)
+    for (name, fn, where), e in sorted(shared_writes.items(), key=lambda kv: str(kv[0])):
+        r_ob.finding(f"{fn}:{name}", f"{fn} writes into {name}, an object created once at class / module level and shared by all threads "
+                     f"({e['kind']} {e.get('attr') or e.get('op') or ''}): concurrent calls read each other's value", where)
     report.assumptions += ["imports complete before the library is used from several threads", "pycountry's lazy database load is lock-protected; re's pattern cache and per-call rstr instances are safe under the GIL"]
     report.not_decided += ["a design based on locks or thread-local storage would need a lock-set rule; this check only recognises the absence of shared writes"]
 
